@@ -11,11 +11,11 @@ vlib.build_lib('SW','rel'); vlib.cc_harness('SW','rel','kernel_replay')
 PY
 mkdir -p out/sweep
 for seed in $(seq $A $B); do
-  for pf in ${KPROFILES:-wait res pool buf queue cond end rec mix contend order condmany condorder soup soupfix}; do
+  for pf in ${KPROFILES:-wait res pool buf queue cond end rec mix contend order condmany condorder soup soupfix soupfix2}; do
    ( python3 tools/kgen.py $seed $N $pf > out/sweep/g_$pf.txt; ./build/SW/rel/kernel_replay run out/sweep/g_$pf.txt out/sweep/g_$pf.ndjson 2>out/sweep/g_$pf.err
      cd spec && TRACE=$ROOT/out/sweep/g_$pf.ndjson timeout 1800 java -Xmx4g -cp /opt/veriftools/tla/tla2tools.jar:/opt/veriftools/tla/CommunityModules-deps.jar tlc2.TLC -workers 1 -metadir /tmp/ksw_${seed}_$pf -config KMonTrace.cfg KMonTrace.tla > $ROOT/out/sweep/mon_$pf.txt 2>&1; rm -rf /tmp/ksw_${seed}_$pf ) &
   done; wait
-  for pf in ${KPROFILES:-wait res pool buf queue cond end rec mix contend order condmany condorder soup soupfix}; do
+  for pf in ${KPROFILES:-wait res pool buf queue cond end rec mix contend order condmany condorder soup soupfix soupfix2}; do
     r=$(grep -c REJECT out/sweep/mon_$pf.txt); c=$(grep -c Crash out/sweep/g_$pf.ndjson); k=$(grep -c CONSUMED out/sweep/mon_$pf.txt)
     if [ "$r" != 0 ] || [ "$c" != 0 ] || [ "$k" != 1 ]; then
       echo "seed=$seed profile=$pf rejects=$r crashes=$c consumed=$k"
